@@ -9,14 +9,14 @@ EXTENDS Naturals, Sequences, FiniteSets, TLC, Json, SequencesExt
 CONSTANT OutFile, Depth
 
 Endpoints == {"transactions", "accounts", "logs"}
-Keys(ep) == CASE ep = "transactions" -> {"reference", "timestamp", "account", "source", "destination", "metadata[k]"}
+Keys(ep) == CASE ep = "transactions" -> {"reference", "timestamp", "account", "source", "destination", "metadata[k]", "id"}
               [] ep = "accounts" -> {"address", "metadata[k]", "balance[USD]", "balance"}
-              [] ep = "logs" -> {"date"}
+              [] ep = "logs" -> {"date", "id"}     \* id: what v1's `after` parameter becomes
 Ops == {"$match", "$lt", "$lte", "$gt", "$gte"}
 OnlyMatch == {"account", "source", "destination", "address", "metadata[k]"}
 ValKind(key) == CASE key \in {"account", "source", "destination", "address"} -> {"addr", "addr-segments"}
                   [] key \in {"timestamp", "date"} -> {"time"}
-                  [] key \in {"balance[USD]", "balance"} -> {"num"}
+                  [] key \in {"balance[USD]", "balance", "id"} -> {"num"}
                   [] OTHER -> {"str"}
 
 KV(op, key, v) == [t |-> "kv", op |-> op, key |-> key, val |-> v, items |-> <<>>]
